@@ -27,6 +27,11 @@ type Pool struct {
 	EdEncPEM  [][]byte // passphrase-protected (SSHPassphrase), first 3 keys
 	RSAPEM    [][]byte
 	RSAEncPEM [][]byte // first 2 keys
+	// Other: key files of other formats and types, by name. "X.legacyenc" is
+	// the Proc-Type/DEK-Info encrypted PEM old ssh-keygen wrote (SSHPassphrase):
+	// dsa, dsa.legacyenc, ecdsa, ecdsa.legacyenc, rsa0l.legacyenc (= RSA[0]),
+	// ed0.pkcs8 (= Ed[0], unencrypted PKCS#8).
+	Other map[string][]byte
 }
 
 var (
@@ -72,6 +77,10 @@ func ThePool() *Pool {
 			panic(err)
 		}
 		p.RSASmall = k.(*rsa.PrivateKey)
+		p.Other = map[string][]byte{}
+		for _, n := range []string{"dsa", "dsa.legacyenc", "ecdsa", "ecdsa.legacyenc", "rsa0l.legacyenc", "ed0.pkcs8"} {
+			p.Other[n] = mustRead(n + ".pem")
+		}
 		pool = p
 	})
 	return pool
